@@ -105,6 +105,11 @@ fn main() {
                 "C20" => oracle::c20(tier, seed, ops),
                 "C01" | "C02" | "C03" | "C05" | "C06" | "C07" | "C08" | "C09" | "C11" | "C12" | "C14" => {
                     let mut rep = oracle::packet_oracle(prop, tier, seed, ops);
+                    if ops.is_none() && matches!(prop.as_str(), "C06" | "C12" | "C03" | "C11") {
+                        use fam::{V3, V5};
+                        poracle::history_invariance::<V3>(&mut rep, &poracle::hist_frames::<V3>(tier, seed));
+                        poracle::history_invariance::<V5>(&mut rep, &poracle::hist_frames::<V5>(tier, seed));
+                    }
                     if ops.is_none() {
                         // the same property on packets of 64 KiB .. 256 MiB (the corpus above stays < 200 KB)
                         let mut lrep = report::Report::new(prop, "");
